@@ -90,7 +90,7 @@ fn configure(t: &mut Tera, prefixes: usize, suffixes: &Option<Vec<String>>) {
 
 pub fn run(cx: &mut Cx) {
     let menu = menu();
-    let total = cx.total(25_000, 1_000_000);
+    let total = cx.total(10_000, 1_000_000);
     for case in cx.my_cases(total) {
         cx.begin_case(case, "history");
         let mut rng = cx.rng(case);
